@@ -293,11 +293,13 @@ OpIntoIter(tb, t) ==
       ELSE [tab |-> WithCap(0), ev |-> Ev("into_iter", t, 0, 0, 0, {}, 0, "ok", 0, w.out, <<>>),
             sit |-> TrailSit(tb, w)]
 
-(* drain(): len = 0, free = data.len(); Drain::next / Drop for Drain mark the
-   slots up to the last element FREE and then stop.
-   (Variant HT_VARIANT_drain_all, NOT the present code: Drop for Drain marks all
-   remaining slots FREE.  For use when raw.rs is changed that way.) *)
-DrainAll == "HT_VARIANT_drain_all" \in DOMAIN IOEnv
+(* drain(): len = 0, free = data.len(); Drain::next marks the slots up to the
+   last element FREE, Drop for Drain then marks all remaining slots FREE
+   (fix b7b8f7e in /repo).
+   (Variant HT_VARIANT_drain_partial: the code before that fix, where Drop for
+   Drain stopped after the last element and left trailing tombstones although
+   `free` counts every slot: FreeSound is violated, lookups can hang.) *)
+DrainAll == "HT_VARIANT_drain_partial" \notin DOMAIN IOEnv
 OpDrain(tb, t) ==
   LET w == Walk(tb)
   IN  IF w.short THEN HangEv("drain", t, 0, 0, {}, 0)
